@@ -56,7 +56,7 @@ func init() {
 	core.Register(&core.Prop{
 		ID:    "C14",
 		Level: "exploration",
-		Rule: "pairs (chart tree, values): trees root / root+child / +grandchild / +aliased or tagged sibling, each chart with or without a values.schema.json drawn from the family {type (7 names, lists), required, enum, minimum/maximum, minLength/maxLength, pattern, nested properties, additionalProperties true|false|schema, items, $schema draft-07|2020-12|none}; values built to satisfy every schema, to break exactly one keyword at one chart, or at random, then spread over the chart's own values.yaml, ancestor sections and user values (with overridden decoys and user nulls); subcharts switched off by condition/tags; 35% of the trees carry crds/ directories (root and subcharts, enabled or disabled); each pair runs through install dry-run, real install, upgrade, client-only template, lint, and the skip-schema-validation variants. " +
+		Rule: "pairs (chart tree, values): trees root / root+child / +grandchild / +aliased or tagged sibling / +namesake charts, each chart with or without a values.schema.json drawn from the family {type (7 names, lists), required, enum, minimum/maximum, minLength/maxLength, pattern, nested properties, additionalProperties true|false|schema, items, $schema draft-07|2020-12|none}; values built to satisfy every schema, to break exactly one keyword at one chart, or at random, then spread over the chart's own values.yaml, ancestor sections and user values (with overridden decoys and user nulls); subcharts switched off by condition/tags; a share of the trees contains namesakes (different charts with different schemas known under one name: sibling's child vs child's child, grandchild vs child, real name vs alias of another chart); 35% of the trees carry crds/ directories (root and subcharts, enabled or disabled); each pair runs through install dry-run, real install, upgrade, client-only template, lint, and the skip-schema-validation variants. " +
 			"distinct_nontrivial counts distinct (entry point, violating chart levels, first violated keyword, source of the planted violation) tuples of REJECT-expected pairs whose violation sits in a subchart or arrives from a non-default source, plus disabled-subchart-violates shapes.",
 		Assumptions: []string{
 			"effective values and the enabled set are taken from helm's own ProcessDependencies/CoalesceValues (judged by C04/C11)",
@@ -308,6 +308,9 @@ func run(c core.Case, verbose bool) core.Result {
 			res.Stat("expected_reject", 1)
 			for _, ch := range v.violating {
 				res.Stat("expected_reject_at_"+ch.Level, 1)
+				if ch.Twin {
+					res.Stat("expected_reject_at_chart_with_namesake", 1)
+				}
 			}
 		} else {
 			res.Stat("expected_accept", 1)
@@ -332,6 +335,24 @@ func run(c core.Case, verbose bool) core.Result {
 		}
 		if disabledCRDs > 0 {
 			res.Stat("pairs_with_crds_in_disabled_subchart", 1)
+		}
+		twins, twinsLive := 0, 0
+		for _, ch := range p.Charts {
+			if ch.Twin {
+				twins++
+				if ch.Enabled && ch.Schema != nil { // Enabled already implies enabled ancestors
+					twinsLive++
+				}
+			}
+		}
+		if twins > 0 {
+			res.Stat("pairs_with_namesake_charts", 1)
+			if twinsLive == twins {
+				res.Stat("pairs_with_both_namesakes_enabled_and_schemas", 1)
+				if !v.reject() {
+					res.Stat("expected_accept_with_enabled_namesake_schemas", 1)
+				}
+			}
 		}
 		if v.twice {
 			res.Stat("pairs_where_lint_values_differ_from_install_values", 1)
@@ -623,6 +644,8 @@ func post(a *core.Agg) string {
 	need("skip_ops_not_rejected_on_violating_values", 50)
 	need("expected_reject_with_crds_in_enabled_chart", 50)
 	need("pairs_with_crds_in_disabled_subchart", 10)
+	need("expected_reject_at_chart_with_namesake", 30)
+	need("expected_accept_with_enabled_namesake_schemas", 10)
 	need("accepted_real_op_mutations", 1)
 	need("accepted_real_op_storage_writes", 1)
 	for _, e := range []string{"install-dry-run", "install", "upgrade", "template", "lint"} {
